@@ -25,7 +25,7 @@
      - At history level the environment is env_map sc / env_set sc for an
        ARBITRARY script sc (Model/Exec.v): with sc_adv = true every ==
        answer is computed by Exec.adv_answer, which has FOUR kinds selected by
-       sc_seed mod 4: 0 = the truth negated pseudo-randomly (seed, call counter
+       sc_seed mod 5 (4 / 0 / 1 / 2 / 3; the comments below still number the first four kinds 0-3): the truth negated pseudo-randomly (seed, call counter
        n_eq), 1 = everything equals everything, 2 = nothing equals anything (not
        even itself), 3 = the answer alternates between two calls on the same
        operands; the fault kinds can in addition make a comparison panic.  The
@@ -533,7 +533,7 @@ Proof. exact (@example_disjoint_lying_alternating). Qed.
 Print Assumptions C17_example_disjoint_lying_alternating.
 
 (* a history on the full 3-entry map m3 under each of the FOUR kinds of
-   misbehaving == of Exec.adv_answer (selected by seed mod 4).  The hypotheses
+   misbehaving == of Exec.adv_answer (selected by seed mod 5; the seeds 4, 5, 6, 7 used below select the same four kinds as before, seed 8 the asymmetric one).  The hypotheses
    of C17_run_NoDup hold for every script; the runs never reach UB; the answers
    are wrong in four different ways, and the ledger balances every time
    (stored ++ with the caller ++ destroyed are 13 or 14 pairwise distinct ids out
@@ -610,12 +610,32 @@ Example C17_example_history_alternating :
   end.
 Proof. vm_compute. repeat split; reflexivity. Qed.
 
-(* the four seeds really select the four kinds *)
+(* the seeds really select the kinds (seed mod 5: 4 = PRNG lies, 0 = always equal, 1 = never equal, 2 = alternating,
+   3 = determined by the operands but ASYMMETRIC: a == b iff class a <= class b, see Exec.cls_truth) *)
 Example C17_example_modes :
-  (4 mod 4 = 0 /\ 5 mod 4 = 1 /\ 6 mod 4 = 2 /\ 7 mod 4 = 3)%N /\
+  (4 mod 5 = 4 /\ 5 mod 5 = 0 /\ 6 mod 5 = 1 /\ 7 mod 5 = 2 /\ 8 mod 5 = 3)%N /\
   (forall n t, adv_answer 5 n t = true) /\ (forall n t, adv_answer 6 n t = false) /\
-  (forall t, adv_answer 7 0 t = t /\ adv_answer 7 1 t = negb t).
-Proof. repeat split; reflexivity. Qed.
+  (forall t, adv_answer 7 0 t = t /\ adv_answer 7 1 t = negb t) /\
+  (forall n t, adv_answer 8 n t = t) /\
+  (let sc := {| sc_adv := true; sc_seed := 8; sc_fk := 0; sc_fa := 0 |} in
+   cls_truth sc 3 5 = true /\ cls_truth sc 5 3 = false /\ cls_truth sc 4 4 = true) /\
+  (forall sc a b, sc_adv sc = false -> cls_truth sc a b = N.eqb a b).
+Proof.
+  repeat split; try reflexivity.
+  intros sc a b Ha. unfold cls_truth, asym. rewrite Ha. reflexivity.
+Qed.
+
+(* under the asymmetric kind the ORDER of the operands of a comparison is observable: class 3 stored, class 5 looked
+   up: "stored == needle" holds (3 <= 5), so the lookup hits; with the operands the other way round it would miss *)
+Example C17_example_asymmetric_run :
+  run_case false [[1; 8; 0; 0; 3; 0; 0; 0]; [10; 0; 1; 3; 2; 7]; [20; 0; 0; 5]; [20; 0; 0; 2]]%N
+  = [[1; 0; 7777; 1; 3; 1; 3; 2; 7; 8888; 8889];
+     [1; 1; 0; 2; 7; 7777; 1; 3; 1; 3; 2; 7; 8888; 8889];          (* get by class 5: hit, slot 0 *)
+     [1; 0; 7777; 1; 3; 1; 3; 2; 7; 8888; 8889];                   (* get by class 2: miss *)
+     [1; 7777; 0; 3; 8888; 1; 2; 8889; 1; 7777; 0; 0; 8888; 8889; 1; 7777; 0; 0; 8888; 8889;
+      1; 7777; 0; 0; 8888; 8889; 8890; 2; 0; 0; 100000]]%N.
+Proof. vm_compute. reflexivity. Qed.
+Print Assumptions C17_example_asymmetric_run.
 
 
 (* ========================================================================== *)
